@@ -11,6 +11,7 @@ import (
 	"path/filepath"
 	"sort"
 	"strings"
+	"sync"
 
 	"golang.org/x/tools/go/packages"
 	"golang.org/x/tools/go/ssa"
@@ -28,6 +29,7 @@ type Engine struct {
 	funcsByKey    map[string]*ssa.Function
 	funcsByShort  map[string]*ssa.Function
 	srcCache      map[string][]string
+	srcMu         sync.Mutex
 	timeT         types.Type
 	contractFiles []string
 }
@@ -134,6 +136,38 @@ func (e *Engine) specFor(fn *ssa.Function) *FuncSpec {
 	return e.contracts.Funcs[e.funcKey(fn)]
 }
 
+// rootSpecFor: the contract a function is verified against as a unit root: its own, else the requires clauses of a
+// "roots" function-type contract whose signature it has (a handler is only ever called through a HandlerFunc value).
+func (e *Engine) rootSpecFor(fn *ssa.Function) *FuncSpec {
+	if spec := e.specFor(fn); spec != nil || fn.Pkg == nil || fn.Signature.Recv() != nil {
+		return spec
+	}
+	for key, fs := range e.contracts.Funcs {
+		if !fs.Flags["functype"] || !fs.Flags["roots"] {
+			continue
+		}
+		i := strings.Index(key, ".functype.")
+		if i < 0 {
+			continue
+		}
+		tp := e.typesPkg(key[:i])
+		if tp == nil {
+			continue
+		}
+		obj := tp.Scope().Lookup(key[i+len(".functype."):])
+		if obj == nil {
+			continue
+		}
+		sig, ok := obj.Type().Underlying().(*types.Signature)
+		if !ok || !types.Identical(sig, fn.Signature) {
+			continue
+		}
+		return &FuncSpec{Name: fn.Name(), Pkg: fn.Pkg.Pkg.Path(), Props: fs.Props, Flags: map[string]bool{"derived": true}, Requires: fs.Requires,
+			Assumes: fs.Assumes, Loops: map[int]*LoopSpec{}, File: fs.File, Line: fs.Line}
+	}
+	return nil
+}
+
 func (e *Engine) timeType() types.Type { return e.timeT }
 
 func (e *Engine) typesPkg(path string) *types.Package {
@@ -177,6 +211,8 @@ func (e *Engine) pkgByName(name string, from *types.Package) *types.Package {
 }
 
 func (e *Engine) sourceLine(file string, line int) string {
+	e.srcMu.Lock()
+	defer e.srcMu.Unlock()
 	ls, ok := e.srcCache[file]
 	if !ok {
 		f, err := os.Open(file)
@@ -209,7 +245,7 @@ type UnitResult struct {
 }
 
 func (e *Engine) verifyUnit(fn *ssa.Function, classes map[string]bool) (res *UnitResult) {
-	spec := e.specFor(fn)
+	spec := e.rootSpecFor(fn)
 	u := &Unit{eng: e, root: fn, spec: spec, loopWrites: map[string]map[string]bool{}, classes: classes}
 	res = &UnitResult{Func: e.funcKey(fn)}
 	defer func() {
